@@ -287,19 +287,53 @@ func runC19(r *vhlib.Run) {
 		}
 		return
 	}
+	// text-like streams: every block carries its own code tables, and the blocks are long
+	// enough for a Reader to return in the middle of one
+	textStream := func(name string, n int) []byte {
+		p := gen.Text(r.Rng, n)
+		switch name {
+		case "flate":
+			return gen.StdDeflate(r.Rng, p, []int{1, 6, 9}[r.Rng.Intn(3)])
+		case "brotli":
+			return gen.BrotliEnc(r.Rng, p)
+		case "bzip2":
+			return ref.BZCompress(p, 1+r.Rng.Intn(9))
+		}
+		return nil
+	}
 	for _, c := range codecs() {
-		for k := 0; k < 6; k++ {
+		for k := 0; k < 16; k++ {
 			s1, s2, s3 := c.Valid(r.Rng, 3000).Data, c.Valid(r.Rng, 6000).Data, c.Valid(r.Rng, 6000).Data
+			if k >= 6 {
+				if textStream(c.Name, 10) == nil {
+					break
+				}
+				s1, s2, s3 = textStream(c.Name, 2000+r.Rng.Intn(30000)), textStream(c.Name, 20000+r.Rng.Intn(60000)), textStream(c.Name, 20000+r.Rng.Intn(60000))
+			}
 			want2, _ := ioutil.ReadAll(c.New(bytes.NewReader(s2)))
 			want3, _ := ioutil.ReadAll(c.New(bytes.NewReader(s3)))
 			a := c.New(bytes.NewReader(s1))
-			if k%2 == 0 {
+			if k%2 == 0 || k%5 == 1 {
 				io.Copy(ioutil.Discard, a)
 			}
 			a.Close()
 			b := c.New(bytes.NewReader(s2))
+			var pre []byte
+			if k%3 == 2 {
+				// the new Reader is already inside its first block when the old one starts again
+				pre = make([]byte, 1+r.Rng.Intn(300))
+				n, _ := io.ReadFull(b, pre)
+				pre = pre[:n]
+			}
 			a.Reset(bytes.NewReader(s3))
-			oa, ob := turn(a, b, r)
+			var oa, ob []byte
+			if k%4 == 3 {
+				oa, _ = readCap(a)
+				ob, _ = readCap(b)
+			} else {
+				oa, ob = turn(a, b, r)
+			}
+			ob = append(pre, ob...)
 			r.Eval("closed-then-reset-vs-new:"+c.Name, true, []byte(fmt.Sprint(c.Name, k)), s2, s3)
 			if !bytes.Equal(oa, want3) || !bytes.Equal(ob, want2) {
 				r.Violate("result-differs-when-interleaved", fmt.Sprintf("%s: a closed Reader reused through Reset and a Reader created in between: %d/%d and %d/%d bytes", c.Name, len(oa), len(want3), len(ob), len(want2)),
